@@ -78,7 +78,10 @@ def find(lst: list[dict], key: str, value: Any) -> dict | None:
         cmp = mappyfile.find(d["layers"], "name", "Layer2")
         assert cmp["name"] == "Layer2"
     """
-    return next((item for item in lst if item[key.lower()] == value), None)
+    key = key.lower()
+    # check for the key first so items without it are not modified (missing
+    # keys in a mappyfile dict are created on access)
+    return next((item for item in lst if key in item and item[key] == value), None)
 
 
 def findall(lst: list[dict], key: str, value: Any) -> list[dict]:
@@ -136,7 +139,16 @@ def findall(lst: list[dict], key: str, value: Any) -> list[dict]:
         layers = mappyfile.findall(d["layers"], "group", "test")
         assert len(layers) == 2
     """
-    return [item for item in lst if item[key.lower()] and item[key.lower()] in value]
+    key = key.lower()
+
+    if isinstance(value, (list, tuple, set)):
+        values = value
+    else:
+        values = [value]
+
+    # check for the key first so items without it are not modified (missing
+    # keys in a mappyfile dict are created on access)
+    return [item for item in lst if key in item and item[key] in values]
 
 
 def findunique(lst, key):
